@@ -78,7 +78,7 @@ struct DaemonHooks {
 };
 
 // scenario: {"world":..., "config":{...}, "interval":5, "ticks":[{"adv_ms":..,"ops":[..]}..],
-//            "scripts":{...}, "dropins":[{"tag":..,"config":{..}}], "devs":{"8:0":"ssd"},
+//            "scripts":{...}, "dropins":[{"tag":..,"config":{..}} | {"tag":..,"remove":true}], "devs":{"8:0":"ssd"},
 //            "dt_unknown":bool }
 RunResult runDaemon(const Json::Value& scenario, const DaemonHooks* hooks = nullptr);
 
